@@ -3,6 +3,7 @@
 seed, at /repo HEAD) and record the outcome in seeded/<id>/meta.json under "checks_run".
 usage: evalall.py [<seed-id> ...]"""
 import json, os, re, subprocess, sys
+TB = os.environ.get("VERIF_EVAL_THOROUGH", "240")
 VERIF = os.path.dirname(os.path.dirname(os.path.abspath(__file__)))
 EXTRA = {"C01-2": ["C02"], "C08-2": ["C02"], "C10-2": ["C02"],
          # input-buffer migration reordering rows: also a violation of C19's per-producer order
@@ -15,7 +16,7 @@ def main():
     for sid in ids:
         d = os.path.join(VERIF, "seeded", sid)
         props = [sid.split("-")[0]] + EXTRA.get(sid, [])
-        p = subprocess.run([sys.executable, os.path.join(VERIF, "scripts", "evalseed.py"), d] + props + ["--thorough-budget=240"], capture_output=True, text=True)
+        p = subprocess.run([sys.executable, os.path.join(VERIF, "scripts", "evalseed.py"), d] + props + ["--thorough-budget=" + TB], capture_output=True, text=True)
         runs, cur = {}, None
         for line in p.stdout.splitlines():
             m = re.match(r"^(DETECTED|MISSED|INFRA) (\S+) (\S+)\s*(\S*)", line)
@@ -29,7 +30,7 @@ def main():
             meta["checks_run_first_evaluation"] = meta["checks_run"]
         meta["checks_run"] = runs
         meta["checks_run_at"] = {"repo_commit": head, "verif_commit": mach}
-        meta["how_checks_were_run"] = "scripts/evalall.py -> scripts/evalseed.py seeded/%s %s: scratch worktree of /repo HEAD with patch.diff applied, VERIF_REPO=<worktree> ./check <prop> quick, then thorough (240 s) if quick did not report it; the worktree is removed afterwards. Equivalent to git -C /repo apply + ./check + git -C /repo checkout -- ." % (sid, " ".join(props))
+        meta["how_checks_were_run"] = "scripts/evalall.py -> scripts/evalseed.py seeded/%s %s: scratch worktree of /repo HEAD with patch.diff applied, VERIF_REPO=<worktree> ./check <prop> quick, then thorough (%s s) if quick did not report it; the worktree is removed afterwards. Equivalent to git -C /repo apply + ./check + git -C /repo checkout -- ." % (sid, " ".join(props), TB)
         json.dump(meta, open(mp, "w"), indent=1)
         print(sid, {k: v["result"] + ":" + v["tier"] for k, v in runs.items()}, flush=True)
         if p.returncode != 0 or not runs:
